@@ -9,8 +9,8 @@ RULE = ("random histories (8-70 ops quick, 8-120 thorough) over 4 evbuffers mixi
         "objects and finished without aborting; distinct = hash of the executed op trace (op codes + parameters)")
 
 STEPS = [
-    dict(flavor="asan", harness="h_evbufio", args=["--mode", "refs", "--n1", "0"], cases=dict(quick=1600, thorough=60000)),
-    dict(flavor="asan", harness="h_evbufio", args=["--mode", "refs", "--n1", "1"], cases=dict(quick=500, thorough=20000), seed_off=101),
+    dict(flavor="asan", harness="h_evbufio", args=["--mode", "refs", "--n1", "0"], cases=dict(quick=1100, thorough=22000)),
+    dict(flavor="asan", harness="h_evbufio", args=["--mode", "refs", "--n1", "1"], cases=dict(quick=400, thorough=8000), seed_off=101),
 ]
 REQUIRED = ["op_add_reference", "op_add_reference_with_offset", "op_add_buffer_reference", "reference_chain_multicast",
             "op_add_file_segment", "op_add_file", "segs_sendfile_capable", "segs_mmap", "segs_read", "segs_close_on_free",
@@ -23,7 +23,7 @@ REQUIRED = ["op_add_reference", "op_add_reference_with_offset", "op_add_buffer_r
 
 REG = dict(
     category="exploration",
-    text="Runtime model check: ~2100 (quick) / ~80000 (thorough) random histories of reference / buffer-reference / file-segment "
+    text="Runtime model check: ~1500 (quick) / ~30000 (thorough) random histories of reference / buffer-reference / file-segment "
          "operations on 4 evbuffers under ASan+UBSan+LSan; after every call each readable buffer is copied out and compared with a "
          "per-byte model, every buffer's chain invariants are walked, reference blocks are compared with a pristine copy (a quarter are "
          "read-only mappings ending at a guard page), cleanup callbacks / fd closes are counted and must not run while the model still "
